@@ -391,6 +391,11 @@ func (c *Ctx) ordFuncProductions() []Obligation {
 			if viaReadsBlocks[e.Via] {
 				return "B"
 			}
+			// a helper that prints the header and then the attachments (or the reverse) contributes
+			// both parts, in the order it reads them
+			if e.Field == "Metadata" {
+				return "M"
+			}
 			return "H"
 		}
 		switch e.Field {
